@@ -1605,7 +1605,7 @@ theorem C05_frame_general {s : Store} {c : Forest.XCall} (inv : s.forest.Inv) (h
     (c.run s).1.forest.kidHandles h = s.forest.kidHandles h ∧
     (∀ p, s.forest.parent? h = some p → p ∉ c.writtenParents s.forest → p ∉ c.removedHandles s.forest →
       p ∉ c.movedSubtree s.forest → (c.run s).1.forest.parent? h = some p) := by
-  have fr := frame_general inv hf hla hok hl hnw hnr hnm
+  have fr := frame_general inv hw hf hla hok hl hnw hnr hnm
   refine ⟨fr.live, fr.value, fr.kids, fun p hp h1 h2 h3 => ?_⟩
   have inv' : (c.run s).1.forest.Inv := Store.xstep_inv inv c hw
   have hk := kid_of_parent? inv.nodup hp
@@ -1615,7 +1615,7 @@ theorem C05_frame_general {s : Store} {c : Forest.XCall} (inv : s.forest.Inv) (h
     cases hg : s.forest.get? p with
     | none => rw [hg] at hk; cases hk
     | some t => rfl
-  exact parent_of_frameAt inv.nodup inv'.nodup hp (frame_general inv hf hla hok hpl h1 h2 h3)
+  exact parent_of_frameAt inv.nodup inv'.nodup hp (frame_general inv hw hf hla hok hpl h1 h2 h3)
 
 /-- The setters, node creation and `set_text_consolidation`, whatever they answer: every live node other than the
     one written keeps value, children AND parent (no condition on the parent). -/
